@@ -45,7 +45,7 @@ def put (s : Slru κ ν) (k : κ) (v : ν) : Res (PutResult κ ν × Slru κ ν 
       match s.promote k (some v) with
       | .error f => .error f
       | .ok (some old, s') => .ok (.update old, s', [.key k])
-      | .ok (none, _) => .error (.unwrapNone "slru put: probationary entry vanished")
+      | .ok (none, _) => .ok (.update v, s, [.key k])      -- `remove_and_return_ent` found nothing (unreachable)
     else
       match s.prob.put k v with
       | .error f => .error f
